@@ -1442,7 +1442,7 @@ func crossInjectorCases() []*RejectCase {
 // name wire would pick first.
 func sameNamedValuesFamily() []*Program {
 	var out []*Program
-	for v := 0; v < 6; v++ {
+	for v := 0; v < 8; v++ {
 		b := NewPB(fmt.Sprintf("sv%02d", v), "app", "liba", "libb")
 		ca, cb, c0 := b.Carrier(1, "Config"), b.Carrier(2, "Config"), b.Carrier(0, "Config")
 		var tys []*Ty
@@ -1462,6 +1462,11 @@ func sameNamedValuesFamily() []*Program {
 		case 5:
 			tys = []*Ty{c0, ca, PtrTo(cb)}
 			b.P.Pkgs[1].Name, b.P.Pkgs[2].Name = "lib", "lib"
+		case 6:
+			// unnamed types all get the same base name
+			tys = []*Ty{SliceOf(c0), MapOf(Basic("string"), ca), ArrayOf(2, cb)}
+		case 7:
+			tys = []*Ty{SliceOf(ca), SliceOf(cb), c0, ca}
 		}
 		var items []*Item
 		for _, t := range tys {
